@@ -29,6 +29,7 @@ UNWRAP_SOME = ("std::option::Option::<T>::unwrap", "std::option::Option::<T>::ex
 TRY_BRANCH = ("std::ops::Try>::branch", "std::ops::Try::branch")
 
 OK_PRESERVING = ("std::result::Result::<T, E>::map_err", "std::result::Result::<T, E>::or_else", "std::result::Result::<T, E>::inspect_err")
+RESULT_TO_SOME = {"std::result::Result::<T, E>::ok": "v:Ok", "std::result::Result::<T, E>::err": "v:Err"}
 SOME_TO_OK = ("std::option::Option::<T>::ok_or", "std::option::Option::<T>::ok_or_else")
 
 TOP = ("top", "?")
@@ -262,6 +263,10 @@ def project(term, proj):
             continue
         if k == "call" and e == "v:Ok" and term[1] in SOME_TO_OK and term[2]:
             term, proj = term[2][0], ("v:Some",) + proj[1:]
+            continue
+        if k == "call" and e == "v:Some" and term[1] in RESULT_TO_SOME and term[2]:
+            # `res.ok()` / `res.err()`: the Some payload is the Ok / Err payload of res
+            term, proj = term[2][0], (RESULT_TO_SOME[term[1]],) + proj[1:]
             continue
         if k == "phi":
             alts = [project(t, proj) for t in term[1]]
